@@ -688,7 +688,7 @@ func (e *Engine) solveAll(obls []*Obligation, workdir string, timeout int, jobs 
 				again = append(again, i)
 			}
 		}
-		if len(again) > 0 && len(again) <= 24 {
+		if len(again) > 0 && len(again) <= 8 {
 			sem2 := make(chan struct{}, 4)
 			var w2 sync.WaitGroup
 			for _, i := range again {
@@ -700,7 +700,7 @@ func (e *Engine) solveAll(obls []*Obligation, workdir string, timeout int, jobs 
 					first := obls[i].Detail
 					obls[i].Detail = ""
 					obls[i].NoModel = false
-					e.solveOne(i, obls[i], workdir, 3*timeout, false)
+					e.solveOne(i, obls[i], workdir, 2*timeout, false)
 					obls[i].Detail = "retry after: " + first + " || " + obls[i].Detail
 				}(i)
 			}
